@@ -23,7 +23,9 @@ class Table(dict):
             self.columns = data.columns.tolist()
         # If the input is a dictionary, create a DataFrame using the provided columns
         elif isinstance(data, dict) and columns is not None:
-            self._df = pd.DataFrame(data, columns=columns, copy=False)
+            # the table owns its storage: an in-place update of an indexed row must not
+            # show through in the column lists it was built from or in another table built from them
+            self._df = pd.DataFrame(data, columns=columns, copy=True)
             self.columns = columns
         else:
             raise ValueError("Input must be either a dictionary with columns or a pandas DataFrame.")
